@@ -96,6 +96,9 @@ META = dict(
 META["rule"] += (
     " " + 'Added after the second round of seeded changes: epoch-sized common time shifts (2^24 .. 2^40, POSIX seconds, Julian day); event matrices handed over as int8/int32/int64/float64, Fortran-ordered, strided or read-only; records of 32773 .. 70000 samples with a few dozen late events (index time beyond 16 bit) through both static functions and the N x N analysis.')
 
+META["rule"] += (
+    " " + 'Added after the third round: 20 % of the random cases use a negative lag, in particular lag = -taumax.')
+
 _SAMPLED = {"ES": 0, "ECA": 0}
 
 ES_SETTINGS = [(INF, 0.0), (1.0, 0.0), (2.0, 1.0)]
